@@ -460,8 +460,8 @@ class Interp:
             return SA(out, x.dtype)
         arr = np.asarray(x)
         dtype = dtype or arr.dtype
-        if dtype == np.float64:
-            pass
+        if not _is_key_dtype(dtype) and arr.dtype != np.dtype(dtype) and arr.dtype.kind in "fiub":
+            arr = arr.astype(dtype)  # a weak-typed python literal takes the value it has in the array's dtype (float32(1/3) != 1/3)
         k = kind_of(dtype)
         out = obj_array(arr.shape)
         fo, fa = out.reshape(-1), arr.reshape(-1)
